@@ -33,6 +33,32 @@ pub fn check(case: &Case, obs: &Obs) -> CheckResult {
     let mut ctx = Context::default();
     let mut resp: Vec<u8> = Vec::new();
     let res = FIXTREE.run(&r.bytes, &mut dev, &mut ctx, &mut resp);
+    // the parameter list of every unit, pulled through a FRESH `Parameters` object per element over one
+    // token stream (a staged or helper-based handler): the same elements as through a single object
+    for (ui, u) in case.msg.units.iter().enumerate() {
+        if u.data.len() < 2 || u.data.iter().any(|d| d.is_indefinite()) {
+            continue;
+        }
+        let spans: Vec<(usize, usize)> = r.data_spans.iter().filter(|(i, _, _)| *i == ui).map(|(_, s, e)| (*s, *e)).collect();
+        let (Some(first), Some(last)) = (spans.first(), spans.last()) else { continue };
+        let list = &r.bytes[first.0..last.1];
+        let supplied: Vec<ETok> = u.data.iter().map(|d| d.expected()).collect();
+        let mut toks = scpi::parser::tokenizer::Tokenizer::new_params(list).peekable();
+        let mut got: Vec<ETok> = Vec::new();
+        loop {
+            let mut p = scpi::parser::parameters::Parameters::with(&mut toks);
+            match p.next_optional_token() {
+                Ok(Some(t)) => got.push(ETok::from(t)),
+                Ok(None) => break,
+                Err(e) => fail!("rewrap-error", "{:?}: pulling the list {:?} through a fresh Parameters per element fails with {} after {} elements", txt, escape(list), e.get_code(), got.len()),
+            }
+            if got.len() > supplied.len() {
+                break;
+            }
+        }
+        obs.label("parameter list pulled through a fresh Parameters per element");
+        ensure!(got == supplied, "rewrap-differs", "{:?}: the list {:?} pulled through a fresh Parameters per element gives {got:?}, its elements are {supplied:?}", txt, escape(list));
+    }
     // expectation, unit by unit
     let mut expected_err: Option<i16> = None;
     let mut expected_calls = 0;
